@@ -513,56 +513,61 @@ fn sentence_parts(s: &en::Sentence) -> Value {
 /// M3: a Narsese value moved between kinds. One command = initial value + a list of operations;
 /// the projected value (or the error) is recorded after every step.
 fn lifecycle(c: &Value) -> Value {
+    // every result is a record {"r": tag, ...} (TLC cannot compare a string with a record)
+    let tag = |t: &str| json!({"r": t});
     let model = s_of(c, "model");
     let mut steps = vec![];
     if model == "enum" {
-        let mut cur: Option<en::Narsese> = match guarded(|| narsese_of(&c["v"])) { Ok(Ok(v)) => Some(v), e => return json!({"build":"fail","msg":format!("{e:?}")}) };
+        let mut cur: en::Narsese = match guarded(|| narsese_of(&c["v"])) { Ok(Ok(v)) => v, e => return json!({"build":"fail","msg":format!("{e:?}")}) };
+        steps.push(json!({"res":tag("init"),"v":narsese_to(&cur)}));
         for o in c["ops"].as_array().expect("ops") {
-            let v = match cur.take() { Some(v) => v, None => { steps.push(json!({"res":"gone"})); continue; } };
-            let (res, next): (Value, Option<en::Narsese>) = match o.as_str().unwrap() {
-                "is" => (json!({"is":[v.is_term(), v.is_sentence(), v.is_task()]}), Some(v)),
-                "try_into_term" => match v.clone().try_into_term() { Ok(t) => (json!("ok"), Some(en::Narsese::from_term(t))), Err(e) => (json!({"err":e.to_string().len() > 0}), Some(v)) },
-                "try_into_sentence" => match v.clone().try_into_sentence() { Ok(s) => (json!("ok"), Some(en::Narsese::from_sentence(s))), Err(_) => (json!("err"), Some(v)) },
-                "try_into_task" => match v.clone().try_into_task() { Ok(t) => (json!("ok"), Some(en::Narsese::from_task(t))), Err(_) => (json!("err"), Some(v)) },
-                "try_into_task_compatible" => match v.clone().try_into_task_compatible() { Ok(t) => (json!("ok"), Some(en::Narsese::from_task(t))), Err(_) => (json!("err"), Some(v)) },
-                "std_try_term" => match en::Term::try_from(v.clone()) { Ok(t) => (json!("ok"), Some(en::Narsese::Term(t))), Err(_) => (json!("err"), Some(v)) },
-                "std_try_sentence" => match en::Sentence::try_from(v.clone()) { Ok(t) => (json!("ok"), Some(en::Narsese::Sentence(t))), Err(_) => (json!("err"), Some(v)) },
-                "std_try_task" => match en::Task::try_from(v.clone()) { Ok(t) => (json!("ok"), Some(en::Narsese::Task(t))), Err(_) => (json!("err"), Some(v)) },
-                "cast_to_task" => match v { en::Narsese::Sentence(s) => (json!("ok"), Some(en::Narsese::Task(s.cast_to_task()))), other => (json!("n/a"), Some(other)) },
-                "try_cast_to_sentence" => match v { en::Narsese::Task(t) => match t.try_cast_to_sentence() { Ok(s) => (json!("ok"), Some(en::Narsese::Sentence(s))), Err(t) => (json!("err"), Some(en::Narsese::Task(t))) }, other => (json!("n/a"), Some(other)) },
-                "value_try_cast_to_sentence" => match v.try_cast_to_sentence() { Ok(x) => (json!("ok"), Some(x)), Err(x) => (json!("err"), Some(x)) },
-                "get_term" => (json!({"term":term_to(narsese::api::GetTerm::get_term(&v))}), Some(v)),
+            let v = cur.clone();
+            let (res, next): (Value, en::Narsese) = match o.as_str().unwrap() {
+                "is" => (json!({"r":"is","is":[v.is_term(), v.is_sentence(), v.is_task()]}), v),
+                "try_into_term" => match v.clone().try_into_term() { Ok(t) => (tag("ok"), en::Narsese::from_term(t)), Err(e) => (json!({"r":"err","shown":!e.to_string().is_empty()}), v) },
+                "try_into_sentence" => match v.clone().try_into_sentence() { Ok(s) => (tag("ok"), en::Narsese::from_sentence(s)), Err(_) => (tag("err"), v) },
+                "try_into_task" => match v.clone().try_into_task() { Ok(t) => (tag("ok"), en::Narsese::from_task(t)), Err(_) => (tag("err"), v) },
+                "try_into_task_compatible" => match v.clone().try_into_task_compatible() { Ok(t) => (tag("ok"), en::Narsese::from_task(t)), Err(_) => (tag("err"), v) },
+                "std_try_term" => match en::Term::try_from(v.clone()) { Ok(t) => (tag("ok"), en::Narsese::Term(t)), Err(_) => (tag("err"), v) },
+                "std_try_sentence" => match en::Sentence::try_from(v.clone()) { Ok(t) => (tag("ok"), en::Narsese::Sentence(t)), Err(_) => (tag("err"), v) },
+                "std_try_task" => match en::Task::try_from(v.clone()) { Ok(t) => (tag("ok"), en::Narsese::Task(t)), Err(_) => (tag("err"), v) },
+                "cast_to_task" => match v { en::Narsese::Sentence(s) => (tag("ok"), en::Narsese::Task(s.cast_to_task())), other => (tag("na"), other) },
+                "try_cast_to_sentence" => match v { en::Narsese::Task(t) => match t.try_cast_to_sentence() { Ok(s) => (tag("ok"), en::Narsese::Sentence(s)), Err(t) => (tag("err"), en::Narsese::Task(t)) }, other => (tag("na"), other) },
+                "value_try_cast_to_sentence" => match v.try_cast_to_sentence() { Ok(x) => (tag("ok"), x), Err(x) => (tag("err"), x) },
+                "get_term" => (json!({"r":"term","term":term_to(narsese::api::GetTerm::get_term(&v))}), v),
                 f @ ("reparse_ascii" | "reparse_latex" | "reparse_han") => {
                     let n = &f[8..];
                     let s = enum_format(n).format_narsese(&v);
-                    match guarded(|| enum_format(n).parse::<en::Narsese>(&s)) { Ok(Ok(x)) => (json!({"s":s}), Some(x)), _ => (json!({"s":s,"fail":true}), Some(v)) }
+                    match guarded(|| enum_format(n).parse::<en::Narsese>(&s)) { Ok(Ok(x)) => (json!({"r":"reparsed","s":s}), x), _ => (json!({"r":"reparse-fail","s":s}), v) }
                 }
-                other => (json!({"unknown":other}), Some(v)),
+                other => (json!({"r":"unknown","op":other}), v),
             };
-            steps.push(json!({"res":res,"v":next.as_ref().map(narsese_to)}));
+            steps.push(json!({"res":res,"v":narsese_to(&next)}));
             cur = next;
         }
     } else {
-        let mut cur: Option<lx::Narsese> = match lnarsese_of(&c["v"]) { Ok(v) => Some(v), Err(e) => return json!({"build":"fail","msg":e}) };
+        let mut cur: lx::Narsese = match lnarsese_of(&c["v"]) { Ok(v) => v, Err(e) => return json!({"build":"fail","msg":e}) };
+        steps.push(json!({"res":tag("init"),"v":lnarsese_to(&cur)}));
         for o in c["ops"].as_array().expect("ops") {
-            let v = cur.take().unwrap();
-            let (res, next): (Value, Option<lx::Narsese>) = match o.as_str().unwrap() {
-                "is" => (json!({"is":[v.is_term(), v.is_sentence(), v.is_task()]}), Some(v)),
-                "try_into_term" => match v.clone().try_into_term() { Ok(t) => (json!("ok"), Some(lx::Narsese::from_term(t))), Err(_) => (json!("err"), Some(v)) },
-                "try_into_sentence" => match v.clone().try_into_sentence() { Ok(s) => (json!("ok"), Some(lx::Narsese::from_sentence(s))), Err(_) => (json!("err"), Some(v)) },
-                "try_into_task" => match v.clone().try_into_task() { Ok(t) => (json!("ok"), Some(lx::Narsese::from_task(t))), Err(_) => (json!("err"), Some(v)) },
-                "try_into_task_compatible" => match v.clone().try_into_task_compatible() { Ok(t) => (json!("ok"), Some(lx::Narsese::from_task(t))), Err(_) => (json!("err"), Some(v)) },
-                "cast_to_task" => match v { lx::Narsese::Sentence(s) => (json!("ok"), Some(lx::Narsese::Task(s.cast_to_task()))), other => (json!("n/a"), Some(other)) },
-                "try_cast_to_sentence" => match v { lx::Narsese::Task(t) => match t.try_cast_to_sentence() { Ok(s) => (json!("ok"), Some(lx::Narsese::Sentence(s))), Err(t) => (json!("err"), Some(lx::Narsese::Task(t))) }, other => (json!("n/a"), Some(other)) },
-                "value_try_cast_to_sentence" => match v.try_cast_to_sentence() { Ok(x) => (json!("ok"), Some(x)), Err(x) => (json!("err"), Some(x)) },
+            let v = cur.clone();
+            let (res, next): (Value, lx::Narsese) = match o.as_str().unwrap() {
+                "is" => (json!({"r":"is","is":[v.is_term(), v.is_sentence(), v.is_task()]}), v),
+                "try_into_term" => match v.clone().try_into_term() { Ok(t) => (tag("ok"), lx::Narsese::from_term(t)), Err(_) => (tag("err"), v) },
+                "try_into_sentence" => match v.clone().try_into_sentence() { Ok(s) => (tag("ok"), lx::Narsese::from_sentence(s)), Err(_) => (tag("err"), v) },
+                "try_into_task" => match v.clone().try_into_task() { Ok(t) => (tag("ok"), lx::Narsese::from_task(t)), Err(_) => (tag("err"), v) },
+                "try_into_task_compatible" => match v.clone().try_into_task_compatible() { Ok(t) => (tag("ok"), lx::Narsese::from_task(t)), Err(_) => (tag("err"), v) },
+                "cast_to_task" => match v { lx::Narsese::Sentence(s) => (tag("ok"), lx::Narsese::Task(s.cast_to_task())), other => (tag("na"), other) },
+                "try_cast_to_sentence" => match v { lx::Narsese::Task(t) => match t.try_cast_to_sentence() { Ok(s) => (tag("ok"), lx::Narsese::Sentence(s)), Err(t) => (tag("err"), lx::Narsese::Task(t)) }, other => (tag("na"), other) },
+                "value_try_cast_to_sentence" => match v.try_cast_to_sentence() { Ok(x) => (tag("ok"), x), Err(x) => (tag("err"), x) },
+                "get_term" => (json!({"r":"term","term":lterm_to(narsese::api::GetTerm::get_term(&v))}), v),
                 f @ ("reparse_ascii" | "reparse_latex" | "reparse_han") => {
                     let n = &f[8..];
                     let s = lex_format(n).format_narsese(&v);
-                    match guarded(|| lex_format(n).parse(&s)) { Ok(Ok(x)) => (json!({"s":s}), Some(x)), _ => (json!({"s":s,"fail":true}), Some(v)) }
+                    match guarded(|| lex_format(n).parse(&s)) { Ok(Ok(x)) => (json!({"r":"reparsed","s":s}), x), _ => (json!({"r":"reparse-fail","s":s}), v) }
                 }
-                other => (json!({"unknown":other}), Some(v)),
+                other => (json!({"r":"unknown","op":other}), v),
             };
-            steps.push(json!({"res":res,"v":next.as_ref().map(lnarsese_to)}));
+            steps.push(json!({"res":res,"v":lnarsese_to(&next)}));
             cur = next;
         }
     }
